@@ -47,14 +47,19 @@
 #[allow(dead_code)]
 mod html;
 
-use futures::StreamExt;
+use futures::channel::oneshot;
+use futures::future::{FutureExt, Shared};
+use futures::{Stream, StreamExt};
 use html::Tree;
 use hx_common::*;
-use std::collections::BTreeSet;
+use std::collections::{BTreeSet, HashMap};
+use std::future::Future;
 use std::panic::{catch_unwind, AssertUnwindSafe};
+use std::sync::{Arc, Mutex};
+use std::task::{Context, Poll};
 use tachys::either::{Either, EitherOf3};
 use tachys::html::InertElement;
-use tachys::reactive_graph::OwnedView;
+use tachys::reactive_graph::{OwnedView, Suspend};
 use tachys::view::keyed::keyed;
 use tachys::html::attribute as at;
 use tachys::html::attribute::any_attribute::{AnyAttribute, IntoAnyAttribute};
@@ -108,6 +113,10 @@ enum V {
     Array(Vec<V>),
     Owned(Box<V>),
     Closure(Box<V>),
+    /// `Suspend::new(async { rx_fid.await; view })`
+    Susp(usize, Box<V>),
+    /// keyed list whose items are `<b>{Suspend::new(async { rx_fid.await; key })}</b>`
+    KeyedSusp(Vec<(usize, String)>),
 }
 
 fn hx(s: &str) -> String {
@@ -207,6 +216,17 @@ fn enc_v(v: &V, o: &mut String) {
         V::Closure(x) => {
             o.push('F');
             enc_v(x, o);
+        }
+        V::Susp(f, x) => {
+            o.push_str(&format!("X{f};"));
+            enc_v(x, o);
+        }
+        V::KeyedSusp(ks) => {
+            o.push('Q');
+            for (f, k) in ks {
+                o.push_str(&format!("{f}.{};", hx(k)));
+            }
+            o.push(']');
         }
     }
 }
@@ -356,6 +376,32 @@ impl<'a> D<'a> {
             }
             b'W' => V::Owned(Box::new(self.view()?)),
             b'F' => V::Closure(Box::new(self.view()?)),
+            b'X' => {
+                let f: usize = self.field()?.parse().ok()?;
+                let x = self.view()?;
+                // one level: the view a `Suspend` resolves to holds no `Suspend`
+                if f > 15 || has_susp(&x) {
+                    return Option::None;
+                }
+                V::Susp(f, Box::new(x))
+            }
+            b'Q' => {
+                let mut items = vec![];
+                loop {
+                    if *self.s.get(self.i)? == b']' {
+                        self.i += 1;
+                        break;
+                    }
+                    let fld = self.field()?;
+                    let (f, k) = fld.split_once('.')?;
+                    let f: usize = f.parse().ok()?;
+                    if f > 15 {
+                        return Option::None;
+                    }
+                    items.push((f, unhx(k)?));
+                }
+                V::KeyedSusp(items)
+            }
             _ => return Option::None,
         })
     }
